@@ -28,6 +28,7 @@ func graveyardWorker(db *DB, ctx context.Context, gcRateLimitInterval time.Durat
 			return
 		case <-db.gcTrigger:
 		}
+		verifHook("gc-triggered")
 
 		// Throttle garbage collection.
 		if err := limiter.Wait(ctx); err != nil {
